@@ -1292,6 +1292,41 @@ def check_c07(tier, seed, log=print):
                             run.violation('partial-eager', rep_of(r, idx, cfgname, 'p', P.hexs(pr), partial_stream=pv, reference_partial=sv,
                                                                   what='partial lexer differs from the reference partial lexer (commits too early or waits although the item is determined)'),
                                           key='eager|%s|%s' % (corpus[idx].origin, P.hexs(pr)))
+    # chunked feeding (last clause of the property; theorem C07_chunked_feeding): partial lexers over a schedule of growing buffers,
+    # each resumed (bump) where the one before answered None, finished by an ordinary lexer, must reproduce the one-shot stream;
+    # the same schedules through the model function Chunked.feed (tie)
+    feed_stats = dict(schedules=0, with_several_cuts=0, model_disagreements=0)
+    for cfgname in r['zoo_out']:
+        if 'trace' in cfgname:
+            continue
+        st = streams_of(r, cfgname)
+        if st is None:
+            continue
+        for idx, fl in r.get('feeds', {}).items():
+            if any(l.cb in (20, 21, 22) for l in corpus[idx].leaves):
+                continue
+            for (t, S) in fl:
+                fv = st.get((idx, 'f' + t, P.hexs(S)))
+                full = st.get((idx, 'n', P.hexs(S)))
+                if fv is None or full is None:
+                    continue
+                feed_stats['schedules'] += 1
+                n += 1
+                if ',' in t:
+                    feed_stats['with_several_cuts'] += 1
+                if parse_stream(fv)[:2] != parse_stream(full)[:2] or parse_stream(fv)[2] is not None:
+                    fails.add(idx)
+                    run.violation('chunked', rep_of(r, idx, cfgname, 'f' + t, P.hexs(S), buffer_lengths=t, chunked_stream=fv, oneshot_stream=full,
+                                                    what='partial lexers over buffers of the given lengths (each resumed where the one before answered None) followed by an ordinary lexer do not reproduce the one-shot token stream'),
+                                  key='feed|%s|%s|%s' % (corpus[idx].origin, P.hexs(S), t))
+                mv = lean.get('%d FEED %s %s' % (idx, t, P.hexs(S)))
+                if mv is not None and not same_stream(fv, mv):
+                    feed_stats['model_disagreements'] += 1
+                    if idx not in fails:
+                        run.violation('tie', rep_of(r, idx, cfgname, 'f' + t, P.hexs(S), observed=fv, model=mv, what='chunked feeding: compiled lexers and the model function Chunked.feed disagree',
+                                                    correspondence='Lexer::new_partial + bump + next over a schedule vs LogosModel.Chunked.feed'),
+                                      no_input=True, key='feedtie|%s' % corpus[idx].origin)
+    run.coverage['chunked_feeding'] = feed_stats
     # certificate for partial mode (theorem partial_eq_spec needs prefixOK on every certified pair)
     certp = dict(P=0, noP=0)
     for i in r['accepted']:
